@@ -155,7 +155,15 @@ def run(ctx):
                     ctx.breaks.append({"what": "per-label obligation %s (theorem %s) no longer checks" % (l["id"], l["thm"]),
                                        "detail": why, "case": {"label": l["id"], "go": sysd["go"], "tla": sysd["tla"]}})
         walkable = not info["errors"] and any("g" in l for l in info["labels"])
-        if ctx.replay and walkable and case.get("rnd"):
+        if ctx.replay and walkable and case.get("seed") is not None and not case.get("rnd"):
+            mm, note = G.replay_seed_case(info, case, log)
+            print("replay: state recomputed from Init by the stored schedule of %d committed attempts (TLA+ model)%s" % (
+                len(case.get("schedule") or []), "; " + note if note else ""))
+            print("replay:", json.dumps(mm if mm else {"result": "the two models agree on the recomputed state"}, indent=1)[:8000])
+            for m in mm:
+                ctx.failures.append({"signature": "step-differs:%s.%s.%s" % (sysd["name"], m.get("process"), m.get("label")),
+                                     "what": "replayed seed state still distinguishes the two models", "case": case, "obs": m.get("go"), "exp": m.get("tla")})
+        elif ctx.replay and walkable and case.get("rnd"):
             mm, cover, err = G.run_walks(info, [case["rnd"]], case.get("steps", 100), log, case.get("focus", []))
             shown = [{k: v for k, v in m.items() if k not in ("rnd", "sched")} for m in mm]
             print("replay:", json.dumps(shown if shown else {"result": "no difference on this walk", "error": err}, indent=1)[:8000])
@@ -184,8 +192,8 @@ def run(ctx):
         per_system[sysd["name"]] = st
     # tie A validated by B on further systems: real generated archetypes driven through harness/steplib
     if not ctx.replay:
-        plan = [("dqueue", 0, 3, 40), ("pbkvs", 0, 1, 50), ("pbkvs", 1, 1, 50), ("raftkvs", 0, 2, 50)] if ctx.tier == "quick" else \
-               [("dqueue", 0, 12, 60), ("pbkvs", 0, 8, 80), ("pbkvs", 1, 8, 80), ("raftkvs", 0, 10, 80),
+        plan = [("dqueue", 0, 3, 40), ("pbkvs", 0, 2, 40), ("pbkvs", 1, 2, 40), ("raftkvs", 1, 2, 60)] if ctx.tier == "quick" else \
+               [("dqueue", 0, 12, 60), ("pbkvs", 0, 8, 80), ("pbkvs", 1, 8, 80), ("raftkvs", 0, 8, 80), ("raftkvs", 1, 8, 100),
                 ("shcounter", 0, 6, 30), ("loadbalancer", 0, 8, 60)]
         seeds_ = [ctx.rng.randrange(1 << 30) for _ in plan]
         import random as _random
